@@ -585,7 +585,12 @@ def compare_solve(ctx, case, out, mline):
         if parts[0] != "err":
             what = f"impl raised ConvergenceError ({out['reason']}), model says {mline[:60]}"
         elif parts[1] != out["reason"]:
-            what = f"ConvergenceError reason differs: impl {out['reason']} ({out['msg'][:80]}) model {parts[1]}"
+            if {parts[1], out["reason"]} == {"fault", "diverged"} and ("nan" in out["msg"] or "inf" in out["msg"]):
+                # exact division by zero in the model (LinAlgError -> "fault") is an inf / NaN iterate in floating
+                # point ("diverged"): both raise ConvergenceError, which is all the property asks; counted
+                ctx.count("reason_fault_vs_nonfinite_divergence")
+            else:
+                what = f"ConvergenceError reason differs: impl {out['reason']} ({out['msg'][:80]}) model {parts[1]}"
         elif out["reason"] == "fault" and out.get("iter") is not None and int(parts[2]) != out["iter"]:
             what = f"fault reported at iteration {out['iter']} ({out['msg'][:60]}), model at {parts[2]}"
         elif not close_vec(out["pos"], fvec(parts[3]), rtol=1e-6, atol=1e-8):
